@@ -4,7 +4,9 @@ Tie H: generated list scripts (literals, range comprehensions, append/remove - a
 argument, in particular of the very list that is modified: `ring.append(ring[0])`, `w.remove(w[-1])` -, indexing incl.
 negative indices, `x = y` copies, re-assignment, TUPLE ASSIGNMENTS between lists (swaps, rotations, permutations; with
 literals, repeated names and new names outside the guard), lists returned by user functions, lists local to the main
-loop, lists passed by value to user functions, lists shared between setup() and the main loop) are
+loop, lists passed by value to user functions, lists shared between setup() and the main loop, INDICES BUILT FROM len()
+(`x[len(y) - 1]`, `x[2 - len(y)]`: the parser folds len() to the length of its parse-time copy of the list) next to append / remove of
+RUN-TIME scalars (`x.remove(c + 1)`, c read from a sensor in every pass)) are
   * run as statements by the extracted Coq model (coq/Wire/C09W.v: parser's choice of emitted form, the list helper
     templates as heap transformers, setup() + N passes of loop(), and the CPython reference semantics),
   * executed under real CPython (harness/impl/c09_impl.py: printed values, live list data after every phase),
@@ -27,7 +29,7 @@ from harness import fw
 META = {
     "id": "C09",
     "technique": "Coq proof (heap model of the emitted list helper templates; single-owner invariant by induction over statements and passes; simulation of the CPython reference semantics) + extracted-model correspondence with the real transpiler's firmware compiled with clang++ ASan/UBSan and an interposed allocation counter + CPython reference run + property oracle on the sanitizer verdict and per-pass heap usage",
-    "level_text": "Theorems C09_* (coq/Props/C09.v): every list helper is safe iff Python's index condition holds and frees exactly what it replaces (all heaps, all lists), also when the `const T&` argument of append/remove refers into a list buffer - of the same list included (C09_argument_alias_safe); tuple assignments that permute declared lists keep every buffer single-owned (values after = permutation of values before, proved for all permutations); for every single-owner list program and every number of passes the firmware is memory-safe whenever CPython raises no exception, every reachable heap holds exactly the cells of the live lists, and heap usage follows Python's live data (partial: guard single_owner). Refuted with witnesses reproduced on the real firmware under ASan: `b = a` aliasing (use after free, double free), by-value list parameter mutated by the callee, list locals of the main loop and re-assignment temporaries (one block leaked per pass), `c = a` deep copy vs Python alias (heap grows while Python's live data is constant), `a = ident(a)` (__redu_list_assign from a temporary sharing the buffer: use after free), `a, b = [..], a` (tuple assignment drops a buffer without delete[]: leak); reproduced but outside the model: stale transpile-time len() used as index (out-of-bounds read).",
+    "level_text": "Theorems C09_* (coq/Props/C09.v): every list helper is safe iff Python's index condition holds and frees exactly what it replaces (all heaps, all lists), also when the `const T&` argument of append/remove refers into a list buffer - of the same list included (C09_argument_alias_safe); tuple assignments that permute declared lists keep every buffer single-owned (values after = permutation of values before, proved for all permutations); for every single-owner list program and every number of passes the firmware is memory-safe whenever CPython raises no exception, every reachable heap holds exactly the cells of the live lists, and heap usage follows Python's live data (partial: guard single_owner). Refuted with witnesses reproduced on the real firmware under ASan: `b = a` aliasing (use after free, double free), by-value list parameter mutated by the callee, list locals of the main loop and re-assignment temporaries (one block leaked per pass), `c = a` deep copy vs Python alias (heap grows while Python's live data is constant), `a = ident(a)` (__redu_list_assign from a temporary sharing the buffer: use after free), `a, b = [..], a` (tuple assignment drops a buffer without delete[]: leak); the parser's parse-time copy of every list and the folding of len() are inside the model (coq/Device/DListLen.v): C09_len_fold_safe_partial / C09_len_fold_no_leak_partial - for every script of the len() layer inside the guard len_ok, every sequence of run-time values and every number of passes, CPython free of exceptions implies a memory-safe firmware run with the FOLDED lengths; refuted with witnesses reproduced under ASan: folded len() stale through an untaken branch, in a later pass of an unbalanced loop body, after a re-binding inside a branch, after remove(<run-time value>) dropped the wrong entry of the copy (out-of-bounds reads).",
     "level_note": "Trusted: Coq kernel, extraction (ExtrOcamlBasic), OCaml driver, mock Arduino core (operator new[]/delete[] interposed: live-block/byte counter), clang++ 14 AddressSanitizer/UBSan as the memory checker, CPython 3.12 as the reference. The theorems are about the Gallina heap model; the correspondence bounds its distance from emitter.py's LIST_HELPER_SNIPPET and parser.py's assignment lowering. Element values are ints; String buffers, C int overflow of range(), control flow around list statements and the heap behaviour of the real AVR allocator are outside the model.",
     "design_ref": "DESIGN.md section 4 C09",
 }
@@ -50,6 +52,11 @@ EXC_CODE = {"IndexError": 0, "ValueError": 1, "NameError": 2}
 #   [8,x,y,i] x.append(y[i])   [9,x,y,i] x.remove(y[i])      (the argument is an element of a list - of x itself when y == x)
 #   [10,[x..],[rhs..]] x1, .., xn = r1, .., rn   with rhs = [0,y] (the list y) | [1,[items]] (a literal)
 #   [11,x,y] x = ident(y)   with  def ident(xs): return xs
+#   [12,x,off] x.append(c + off)   [13,x,off] x.remove(c + off)      (c = p.read() at the top of every pass: a run-time scalar)
+#   [14,x,y,sg,k] mon.write(x[len(y) + k]) (sg = 1)  /  mon.write(x[k - len(y)]) (sg = 0)     (len() is folded by the parser)
+#   [15,x,y] for i in range(len(y)): mon.write(x[i])      (harness-level: sent to the model as the reads x[0] .. x[n-1], n = the folded len(y))
+#   programs with "t": True use the vocabulary of coq/Device/DListLen.v (0 1 2(x = x) 3 4 5 6 8 9 10(names only) 12 13 14) and
+#   go to the model in wire mode 2 (parse-time list copies, folded len())
 #   a program may carry "lines": {"head","setup","body"} - the literal script lines (witnesses of findings whose
 #   statements are outside the wire vocabulary); such programs never go to the model
 # --------------------------------------------------------------------------
@@ -95,6 +102,19 @@ def stmt_lines(s, elem=None):
         return [", ".join(f"l{x}" for x in s[1]) + " = " + ", ".join(rhs)]
     if t == 11:
         return [f"l{s[1]} = ident(l{s[2]})"]
+    if t in (12, 13):
+        off = s[2]
+        arg = "c" if off == 0 else (f"c + {off}" if off > 0 else f"c - {-off}")
+        return [f"l{s[1]}.{'append' if t == 12 else 'remove'}({arg})"]
+    if t == 14:
+        x, y, sg, k = s[1:]
+        if sg:
+            idx = f"len(l{y})" + ("" if k == 0 else (f" + {k}" if k > 0 else f" - {-k}"))
+        else:
+            idx = f"-len(l{y})" if k == 0 else f"{par(k)} - len(l{y})"
+        return [f"mon.write(l{x}[{idx}])"]
+    if t == 15:
+        return [f"for i in range(len(l{s[2]})):", f"    mon.write(l{s[1]}[i])"]
     raise ValueError(s)
 
 
@@ -103,13 +123,18 @@ def stmt_names(s):
     t = s[0]
     if t == 10:
         return list(s[1]) + [r[1] for r in s[2] if r[0] == 0]
-    if t in (2, 8, 9, 11):
+    if t in (2, 8, 9, 11, 14, 15):
         return [s[1], s[2]]
     return [s[1]]
 
 
 def gated(prog) -> bool:
     return any(t >= 0 for t in prog.get("gates") or [])
+
+
+def uses_c(prog) -> bool:
+    """the script reads the run-time scalar c = p.read() at the top of every pass"""
+    return gated(prog) or any(s[0] in (12, 13) for s in prog["body"])
 
 
 def lines_of(prog):
@@ -119,10 +144,10 @@ def lines_of(prog):
         return list(ln["head"]), list(ln["setup"]), list(ln["body"])
     stmts = prog["setup"] + prog["body"]
     head = ["from Reduino.Communication import SerialMonitor"]
-    if gated(prog):
+    if uses_c(prog):
         head += ["from Reduino.Sensors import Potentiometer"]
     head += ["mon = SerialMonitor(9600)"]
-    if gated(prog):
+    if uses_c(prog):
         head += ['p = Potentiometer("A0")']
     if any(s[0] == 6 for s in stmts):
         head += ["def f(xs, k):", "    return xs[k]"]
@@ -135,9 +160,9 @@ def lines_of(prog):
     elem = prog.get("elem")
     setup = [ln for s in prog["setup"] for ln in stmt_lines(s, elem)]
     body = ['mon.write("-")']
-    if gated(prog):
+    if uses_c(prog):
         body.append("c = p.read()")
-        for s, t in zip(prog["body"], prog["gates"]):
+        for s, t in zip(prog["body"], prog.get("gates") or [-1] * len(prog["body"])):
             if t < 0:
                 body += stmt_lines(s, elem)
             else:
@@ -153,10 +178,27 @@ def script_of(prog) -> str:
 
 
 def mock_input(prog) -> str:
-    return ("ar 14 " + " ".join(str(v) for v in prog["gvals"]) + "\n") if gated(prog) else ""
+    return ("ar 14 " + " ".join(str(v) for v in prog["gvals"]) + "\n") if uses_c(prog) else ""
 
 
 def wire_of(prog):
+    if prog.get("t"):
+        gates = list(prog.get("gates") or [-1] * len(prog["body"]))
+        body = prog["body"]
+        if any(s[0] == 15 for s in body):
+            # `for i in range(len(y)): mon.write(x[i])` = the reads x[0] .. x[n-1] with n the FOLDED len(y)
+            ns = iter(track_py(prog)[2])
+            eb, eg = [], []
+            for s, g in zip(body, gates):
+                if s[0] == 15:
+                    n = max(next(ns), 0)
+                    eb += [[5, s[1], i] for i in range(n)]
+                    eg += [g] * n
+                else:
+                    eb.append(s)
+                    eg.append(g)
+            body, gates = eb, eg
+        return [2, prog["setup"], body, gates, list(prog["gvals"])]
     if gated(prog):
         return [1, prog["setup"], prog["body"], prog["gates"], prog["gvals"]]
     return [0, prog["setup"], prog["body"], prog["N"]]
@@ -171,7 +213,7 @@ def rename(stmts, off):
             s[2] = [[0, r[1] + off] if r[0] == 0 else [1, list(r[1])] for r in s[2]]
         else:
             s[1] += off
-            if s[0] in (2, 8, 9, 11):
+            if s[0] in (2, 8, 9, 11, 14, 15):
                 s[2] += off
         out.append(s)
     return out
@@ -197,6 +239,8 @@ def combine(parts, N):
     out = {"setup": setup, "body": body, "N": N, "gates": gates, "gvals": gvals or [0] * N}
     if parts and parts[0].get("elem"):
         out["elem"] = parts[0]["elem"]
+    if parts and all(p.get("t") for p in parts):
+        out["t"] = True
     return out
 
 
@@ -205,6 +249,8 @@ def guard_py(prog) -> bool:
     (cross-checked against the model's guard bit on every case)"""
     if prog.get("lines"):
         return False
+    if prog.get("t"):
+        return track_py(prog)[0]
     decl = []
 
     def use_ok(s):
@@ -235,6 +281,89 @@ def guard_py(prog) -> bool:
     return all(use_ok(s) for s in prog["body"])
 
 
+def track_py(prog):
+    """mirror of coq/Device/DListLen.v (track1, len_ok) for the oracle's guard, cross-checked against the model on every
+    case: the parser's parse-time copy of every list.  -> (len_ok, [folded len() of every len() read of the body, -1 = run-time],
+    [folded len() of every `for i in range(len(y))` of the body])"""
+    t, decl, ok, folded, folded_for = {}, [], True, [], []
+
+    def cur(x):
+        v = t.get(x)
+        return v if isinstance(v, list) else None
+
+    def arg_val(s):
+        # _eval_const of the argument: only a literal is a constant (a run-time scalar and ANY subscript y[i] are not)
+        return s[2] if s[0] in (3, 4) else None
+
+    def use_ok(s):
+        k = s[0]
+        if k == 2:
+            return s[1] == s[2] and s[1] in decl
+        if k in (3, 4, 5, 6, 12, 13):
+            return s[1] in decl
+        if k in (8, 9, 14, 15):
+            return s[1] in decl and s[2] in decl
+        if k == 10:
+            xs, rs = s[1], s[2]
+            if any(r[0] != 0 for r in rs):
+                return False
+            ys = [r[1] for r in rs]
+            return (len(xs) == len(ys) and len(set(xs)) == len(xs) and len(set(ys)) == len(ys)
+                    and all(y in xs for y in ys) and all(x in decl for x in xs))
+        return False
+
+    def step(s, g, in_setup):
+        nonlocal ok
+        k, is_g = s[0], g >= 0
+        if k in (0, 1):
+            if not in_setup or s[1] in decl or is_g:
+                ok = False
+            t[s[1]] = list(s[2]) if k == 0 else None
+            if s[1] not in decl:
+                decl.append(s[1])
+            return
+        if not use_ok(s) or (is_g and (in_setup or k not in (5, 6, 14, 15))):
+            ok = False
+        x = s[1]
+        c = cur(x) if k != 10 else None
+        if k in (3, 8, 12):
+            v = arg_val(s)
+            if c is not None:
+                c.append(v)
+        elif k in (4, 9, 13):
+            v = arg_val(s)
+            if c is not None:
+                if v is not None:
+                    if v in c:
+                        c.remove(v)
+                    else:
+                        ok = False          # the list shrinks (when Python does not raise), the copy does not
+                elif c:
+                    c.pop(0)
+        elif k == 2 and not is_g:
+            t[x] = None
+        elif k == 10 and not is_g:
+            for z in s[1]:
+                t[z] = None
+        elif k == 14 and not in_setup:
+            cy = cur(s[2])
+            folded.append(len(cy) if cy is not None else -1)
+        elif k == 15:
+            cy = cur(s[2])
+            folded_for.append(len(cy) if cy is not None else -1)
+
+    for s in prog["setup"]:
+        step(s, -1, True)
+    at_loop = {x: len(v) for x, v in t.items() if isinstance(v, list)}
+    gates = prog.get("gates") or [-1] * len(prog["body"])
+    for s, g in zip(prog["body"], gates):
+        step(s, g, False)
+    for x, n in at_loop.items():
+        if cur(x) is None or len(cur(x)) != n:
+            ok = False
+    return ok, folded, folded_for
+
+
 # --------------------------------------------------------------------------
 # a tiny straight-line simulation used ONLY to steer the generators towards valid programs
 # (the verdicts come from the model, CPython and the firmware)
@@ -258,9 +387,19 @@ def sim(prog):
                 tot += len(v)
         return tot
 
-    def ex(s):
+    def ex(s, c=0):
         t = s[0]
-        if t == 0:
+        if t == 12:
+            env[s[1]].append(c + s[2])
+        elif t == 13:
+            env[s[1]].remove(c + s[2])
+        elif t == 14:
+            n = len(env[s[2]])
+            env[s[1]][(n + s[4]) if s[3] else (s[4] - n)]
+        elif t == 15:
+            for i in range(len(env[s[2]])):
+                env[s[1]][i]
+        elif t == 0:
             env[s[1]] = list(s[2])
         elif t == 1:
             v = comp_vals(s[2])
@@ -299,7 +438,7 @@ def sim(prog):
         for k in range(prog["N"]):
             for s, t in zip(prog["body"], gates):
                 if t < gv[k]:
-                    ex(s)
+                    ex(s, gv[k])
             lives.append(live())
     except (IndexError, ValueError, KeyError):
         return None
@@ -316,13 +455,17 @@ def gen_decl(rng, x):
     return [1, x, [a, b, st, rng.choice([1, 2, -1, 0]), rng.choice([0, 1, -3])]]
 
 
-def cur_lists(stmts):
+def cur_lists(stmts, c=0):
     """contents after running stmts once (generator steering only)"""
     env = {}
     for s in stmts:
         t = s[0]
         try:
-            if t == 0:
+            if t == 12:
+                env[s[1]].append(c + s[2])
+            elif t == 13:
+                env[s[1]].remove(c + s[2])
+            elif t == 0:
                 env[s[1]] = list(s[2])
             elif t == 1:
                 env[s[1]] = comp_vals(s[2]) or []
@@ -490,6 +633,115 @@ def gen_str_part(rng, N):
             return part
     return {"setup": [[0, 0, [1, 2]]], "body": [[8, 0, 0, 0], [9, 0, 0, 0]], "N": N, "kind": "guard-strings", "gates": [-1, -1],
             "gvals": None, "elem": "str"}
+
+
+
+def gen_len_part(rng, N, pattern, flavour="in"):
+    """programs over the vocabulary of coq/Device/DListLen.v: indices built from len() (folded by the parser from its
+    parse-time copy of the list), append / remove of the RUN-TIME scalar c + off (c = p.read() of the pass), next to the
+    literal / element arguments, `x = x`, permutations, comprehension lists (no copy: run-time len).
+    flavour "in": aimed at the guard len_ok (balanced pairs, gates only on reads); "out": one of the stale-copy classes
+    (an append / remove / re-binding under a run-time condition, an unbalanced body, a constant remove after a run-time remove)"""
+    for _ in range(80):
+        cs = sorted(set(pattern))
+        names = list(range(rng.choice([1, 2, 2, 3])))
+        off = rng.choice([0, 0, 1, -1, 2])
+        l0 = [c + off for c in cs] + [rng.choice(VALS) for _ in range(rng.choice([0, 0, 1, 2]))]
+        rng.shuffle(l0)
+        setup = [[0, 0, l0]] + [gen_decl(rng, x) for x in names[1:]]
+        for _ in range(rng.randint(0, 3)):
+            setup.append(gen_use(rng, setup, names, allow=(3, 8, 8, 4, 5, 10, 2, 3, 8)))
+        if rng.random() < 0.4:
+            # a len() read before the main loop (folded against the copy as it is at that line)
+            pos = rng.randint(len(names), len(setup))
+            env = cur_lists(setup[:pos])
+            x = rng.choice(names)
+            y = x if rng.random() < 0.7 else rng.choice(names)
+            nx, ny = len(env.get(x, [])), len(env.get(y, []))
+            if nx:
+                target = rng.choice([nx - 1, 0, -1, -nx])
+                setup.insert(pos, [14, x, y, 1, target - ny])
+        body, gates, fresh = [], [], 200
+        for _ in range(rng.randint(1, 3)):
+            r = rng.random()
+            x = rng.choice(names)
+            cur = cur_lists(setup + body, pattern[0]).get(x, [])
+            if r < 0.45:
+                pair = [[13, 0, off], [12, 0, off]]       # rotation by the run-time value (l0 holds every c + off)
+                if rng.random() < 0.25:
+                    pair.reverse()
+            elif r < 0.6 and cur:
+                n = len(cur)
+                pair = [[8, x, x, gen_index(rng, n)], [9, x, x, rng.choice([0, -1, -(n + 1), n])]]
+            elif r < 0.8 and cur:
+                e = rng.choice(cur)
+                pair = [[4, x, e], [3, x, e]]
+            else:
+                fresh += 1
+                pair = [[3, x, fresh], [4, x, fresh]]
+            pos = rng.randint(0, len(body))
+            body[pos:pos] = pair
+            gates[pos:pos] = [-1, -1]
+        if rng.random() < 0.25 and len(names) >= 2:
+            pos = rng.randint(0, len(body))
+            body.insert(pos, gen_perm(rng, names))        # ungated re-binding: the targets lose their copy
+            gates.insert(pos, -1)
+        for _ in range(rng.randint(2, 4)):
+            pos = rng.randint(0, len(body))
+            env = cur_lists(setup + body[:pos], pattern[0])
+            x = rng.choice(names)
+            y = x if rng.random() < 0.7 else rng.choice(names)
+            nx, ny = len(env.get(x, [])), len(env.get(y, []))
+            if nx == 0:
+                continue
+            sg = rng.random() < 0.7
+            target = rng.choice([nx - 1, nx - 1, 0, -1, -nx, rng.randrange(-nx, nx)])
+            k = target - ny if sg else target + ny
+            if not sg and k < 0:
+                continue
+            body.insert(pos, [14, x, y, 1 if sg else 0, k])
+            gates.insert(pos, rng.choice([-1, -1, -1, 0, 1, 2]))
+        if rng.random() < 0.4:
+            pos = rng.randint(0, len(body))
+            body.insert(pos, gen_use(rng, setup + body[:pos], names, allow=(5, 6, 5)))
+            gates.insert(pos, rng.choice([-1, -1, 1]))
+        if flavour == "out":
+            shape = rng.choice(["gate", "gate", "drop", "rebind", "pop"])
+            idx = [i for i, s in enumerate(body) if s[0] in (3, 4, 8, 9, 12, 13)]
+            if shape == "gate" and idx:
+                gates[rng.choice(idx)] = rng.choice([0, 1, 2])
+            elif shape == "drop" and idx:
+                i = rng.choice(idx)
+                del body[i], gates[i]
+            elif shape == "rebind" and len(names) >= 2:
+                pos = rng.randint(0, len(body))
+                body.insert(pos, gen_perm(rng, names))
+                gates.insert(pos, rng.choice([0, 1]))
+            else:
+                i = next((i for i, s in enumerate(body) if s[0] == 13), None)
+                if i is not None:
+                    e = l0[0]
+                    body[i + 1:i + 1] = [[4, 0, e], [14, 0, 0, 1, -1], [3, 0, e]]
+                    gates[i + 1:i + 1] = [-1, -1, -1]
+        if not any(s[0] == 14 for s in body):
+            continue
+        part = {"setup": setup, "body": body, "N": N, "kind": "len-" + flavour, "gates": gates, "gvals": list(pattern), "t": True}
+        if flavour == "in" and rng.random() < 0.4 and track_py(part)[0] and sim(part) is not None:
+            # the other place a folded len() ends up in: `for i in range(len(y)): mon.write(x[i])`, y with a parse-time copy
+            pos = rng.randint(0, len(body))
+            env = cur_lists(setup + body[:pos], pattern[0])
+            y = rng.choice(names)
+            xs_ok = [x for x in names if len(env.get(x, [])) >= len(env.get(y, []))]
+            body2, gates2 = list(body), list(gates)
+            body2.insert(pos, [15, rng.choice(xs_ok), y])
+            gates2.insert(pos, rng.choice([-1, -1, 1]))
+            part2 = dict(part, body=body2, gates=gates2)
+            if -1 not in track_py(part2)[2] and sim(part2) is not None:
+                part = part2
+        if flavour == "out" or sim(part) is not None:
+            return part
+    return {"setup": [[0, 0, [c for c in sorted(set(pattern))]]], "body": [[13, 0, 0], [12, 0, 0], [14, 0, 0, 1, -1]], "N": N,
+            "kind": "len-fallback", "gates": [-1, -1, -1], "gvals": list(pattern), "t": True}
 
 
 def gen_index_error_part(rng, N):
@@ -686,7 +938,7 @@ def run_all(progs):
     for p in progs:
         head, setup, body = lines_of(p)
         jobs.append({"head": [ln for ln in head if "Potentiometer" not in ln], "setup": setup, "body": body, "N": p["N"],
-                     "gvals": p["gvals"] if gated(p) else None})
+                     "gvals": p["gvals"] if uses_c(p) else None})
     pys = []
     for i in range(0, len(jobs), 400):
         pys += C.run_impl("c09_impl.py", {"jobs": jobs[i:i + 400]})
@@ -725,8 +977,12 @@ def oracle(prog, res):
     pyp = res["py"]["phases"]
     if len(ph) != len(pyp):
         return out
+    def usage(q):
+        # new String[n] stores the element count in front of the block (8 bytes under the mock): allocator bookkeeping that
+        # follows the number of non-empty lists, not the amount of live data - left out of the comparison
+        return q[2] - STR_COOKIE * q[1] if prog.get("elem") == "str" else q[2]
     for k in range(1, len(ph) - 1):
-        if pyp[k]["live"] == pyp[k + 1]["live"] and ph[k][2] is not None and ph[k + 1][2] is not None and ph[k][2] != ph[k + 1][2]:
+        if pyp[k]["live"] == pyp[k + 1]["live"] and ph[k][2] is not None and ph[k + 1][2] is not None and usage(ph[k]) != usage(ph[k + 1]):
             out.append(("leak", f"CPython's live list data is {pyp[k]['live']} elements after pass {k - 1} and after pass {k}, the "
                                 f"firmware's live heap went from {ph[k][2]} to {ph[k + 1][2]} bytes ({ph[k][1]} -> {ph[k + 1][1]} blocks)",
                         ph[k][2], ph[k + 1][2]))
@@ -738,6 +994,8 @@ def public(prog):
     out = {"setup": prog["setup"], "body": prog["body"], "N": prog["N"], "gates": prog.get("gates"), "gvals": prog.get("gvals")}
     if prog.get("elem"):
         out["elem"] = prog["elem"]
+    if prog.get("t"):
+        out["t"] = True
     return out
 
 
@@ -764,7 +1022,7 @@ def load_findings(ctx):
     p = C.VERIF / "known_findings.d" / "C09.json"
     if p.exists():
         for f in json.loads(p.read_text()):
-            items.setdefault(f["id"], f)
+            items[f["id"]] = f          # the work package's own file is the newer one
     return [f for f in items.values() if f.get("kind") != "fixed"]
 
 
@@ -833,6 +1091,10 @@ def run(ctx: C.Ctx):
         parts.append(gen_outside_part(rng, N))
     for i in range(150 if thorough else 20):
         parts.append(gen_str_part(rng, N))
+    for i in range(600 if thorough else 70):
+        parts.append(gen_len_part(rng, N, GPATTERNS[i % len(GPATTERNS)], "in"))
+    for i in range(240 if thorough else 24):
+        parts.append(gen_len_part(rng, N, GPATTERNS[i % len(GPATTERNS)], "out"))
     ex_parts = gen_exhaustive_parts(3 if thorough else 2, N)
     parts += ex_parts
     # ---- classify every part with the model: safe-expected parts are batched, the others run alone
@@ -848,7 +1110,7 @@ def run(ctx: C.Ctx):
         else:
             expect_safe = p["kind"].startswith("guard")
         (safe_parts if expect_safe else single).append(p)
-    cap = 800 if thorough else 34
+    cap = 900 if thorough else 44
     if len(single) > cap:
         # keep every kind represented: shuffle deterministically, keep the first `cap`
         rng.shuffle(single)
@@ -874,7 +1136,7 @@ def run(ctx: C.Ctx):
                         (in_exc, "batch-in-guard-python-raises"), (out_g, "batch-outside-guard")):
         # one potentiometer per sketch: parts of a batch share the per-pass run-time values
         def pkey(p):
-            return (tuple(p["gvals"]) if p.get("gvals") else None, p.get("elem"))
+            return (tuple(p["gvals"]) if p.get("gvals") else None, p.get("elem"), bool(p.get("t")))
         pats = []
         for p in group0:
             if pkey(p) not in pats:
@@ -884,7 +1146,7 @@ def run(ctx: C.Ctx):
             for i in range(0, len(group), BATCH):
                 chunk = group[i:i + BATCH]
                 cases.append({"prog": combine(chunk, N), "parts": chunk,
-                              "family": fam + ("-gated" if k[0] else "") + ("-strings" if k[1] else "")})
+                              "family": fam + ("-gated" if k[0] else "") + ("-strings" if k[1] else "") + ("-len" if k[2] else "")})
     for p in single:
         cases.append({"prog": combine([p], N), "parts": [p], "family": "single-" + p["kind"].split("-")[0]})
 
@@ -1044,7 +1306,14 @@ def run(ctx: C.Ctx):
                 "to the main loop, struct copies local to loop(), a callee mutating its by-value list parameter; half of the (a) parts put "
                 "their loop statements under run-time conditions `if c > t:` (t in -1 (none), 0, 1, 2; c = analogRead per pass from 3 input "
                 "patterns), so that different passes execute different statement sequences (append/remove pairs share a gate); (d) every statement "
-                "sequence of length <= 2 (quick) / <= 3 (thorough) over a 16-statement boundary alphabet (incl. l0.append(l0[-1]), l0.remove(l0[0]), l0 = ident(l0)) on l0 = [1, 2] as loop body. Every "
+                "sequence of length <= 2 (quick) / <= 3 (thorough) over a 16-statement boundary alphabet (incl. l0.append(l0[-1]), l0.remove(l0[0]), l0 = ident(l0)) on l0 = [1, 2] as loop body; "
+                "(e) kind len-in / len-out (coq/Device/DListLen.v, wire mode 2): a list l0 holding every run-time value c + off of the input pattern plus boundary values, 0-2 further lists "
+                "(literal: the parser keeps a copy; comprehension: no copy, run-time __redu_len), setup uses (constant / element appends - elements of comprehension lists leave "
+                "placeholders in the copy -, constant removes, `x = x`, permutations: the targets lose their copy), 40 % with a len() read before the loop; loop body = 1-3 balanced pairs "
+                "(rotation by the RUN-TIME value `l0.remove(c + off); l0.append(c + off)` - also append first -, by an own element, by a constant of the list, by a fresh constant), "
+                "25 % an ungated permutation, 2-4 reads `x[len(y) + k]` / `x[k - len(y)]` (y = x 70 %; target index boundary-heavy: len-1, 0, -1, -len, random) under gates -1 / 0 / 1 / 2, "
+                "optional plain read; len-out applies one stale-copy change: a gate on an append / remove, one statement of a pair dropped, a gated permutation, a constant remove of the "
+                "copy's first entry after the run-time remove. Every "
                 "part is classified by the model; parts it expects to run safely are batched 10 per sketch (disjoint names), the others "
                 "run one per sketch (quick tier: a seeded sample). evaluations = phases (setup + passes) of in-guard exception-free "
                 "sketches judged by the oracle + 1 per other sketch compared; distinct non-trivial = distinct parts with more than 2 statements.",
@@ -1073,15 +1342,16 @@ def run(ctx: C.Ctx):
                        "subscript stores `a[i] = v` (the transpiler drops the line: C07's domain; the model keeps list_set as a helper-level operation only)",
                        "allocator behaviour of the real AVR heap (fragmentation, new[] failure); out-of-bounds reads that ASan cannot see "
                        "(1-4 ints before the buffer fall into the mock counter's own header: counted in distribution.oob_not_detected_by_asan)",
-                       "len() of a list (constant-folded by the parser: C03's domain; its memory-safety consequence is recorded as F-C09-stale-len-out-of-bounds and replayed, not modelled)",
-                       "append/remove arguments that are expressions over list elements (`a.append(a[0] + 1)`: a temporary, by value) or run-time scalars; list literals built from elements of lists (`b = [a[1], a[0]]`)",
+                       "len() outside an index of the forms `len(y) + k`, `k - len(y)` (`n = len(a)` stored in a variable, `for i in range(len(a))`, len() of strings / literals, len() in conditions); "
+                       "list literals with run-time elements (`[1, c]`: no parse-time copy); run-time scalars other than `c + off` with c read once per pass, run-time scalars before the main loop",
+                       "append/remove arguments that are expressions over list elements (`a.append(a[0] + 1)`: a temporary, by value); list literals built from elements of lists (`b = [a[1], a[0]]`)",
                        "tuple assignments that mix lists and scalars, or declare some targets and assign others inside setup() (the new names become locals of setup(): C06's domain)",
                        "the order of evaluation of `list.data[i] == value` inside __redu_list_remove when BOTH operands are invalid (outside the guard only)"],
         "trusted_base": C.COMMON_TRUSTED + [
             "mock/mock_core.cpp operator new[]/delete[] interposition (live blocks / bytes, sampled after setup() and every pass), mock Serial printing",
             "clang++ 14 -fsanitize=address,undefined -O0 as the memory checker (halting on the first report; class read from its SUMMARY line)",
             "harness/fw.py, harness/impl/transpile_impl.py (real parse+emit), harness/impl/c09_impl.py (CPython exec of the same lines; live data = total length of distinct list objects bound to module names)",
-            "harness/props/c09.py: script text of a statement, guard_py (cross-checked against the model), classification of sanitizer reports"],
+            "harness/props/c09.py: script text of a statement, guard_py / track_py (cross-checked against the model's single_owner / len_ok on every case), classification of sanitizer reports"],
     })
     ctx.assumptions += ["the mock core + ASan/UBSan define 'memory error' (DESIGN.md section 3); freed blocks are quarantined, so a stale pointer never aliases a newer block during a run",
                         "sizeof(int) = 4 under the mock (live bytes = 4 * live cells)",
